@@ -50,6 +50,7 @@ type Prog struct {
 	initial []*packages.Package
 
 	neverNilFn map[*Func]bool
+	holdsState *State // state of the Holds query in progress (for pruning join alternatives)
 }
 
 func loadProg(dir string) (*Prog, error) {
